@@ -117,7 +117,7 @@ def lean_sources():
 EXTRA_MODULES = {
     "C14": ["CodeLimit.Props.C14b"],
     "C01": ["CodeLimit.Lemmas.GenTie", "CodeLimit.Props.C01disc", "CodeLimit.Props.C01py", "CodeLimit.Props.C01syn",
-            "CodeLimit.Props.C01tree", "CodeLimit.Props.C01pyfull", "CodeLimit.Props.C01text"],
+            "CodeLimit.Props.C01tree", "CodeLimit.Props.C01pyfull", "CodeLimit.Props.C01text", "CodeLimit.Props.C01full"],
     "C05": ["CodeLimit.Lemmas.GenTie", "CodeLimit.Props.C05text"],
 }
 
